@@ -67,6 +67,60 @@ def strip_comments(src):
     return "".join(out)
 
 
+# ------------------------------------------------------------------ which sources differ from the validated ones
+
+SRC_VIEWS = {
+    "pure_functions/add.rs": ["add"], "pure_functions/subtract.rs": ["sub"], "pure_functions/multiply.rs": ["mul"],
+    "pure_functions/divide.rs": ["div"], "pure_functions/constant.rs": ["const"], "pure_functions/echo.rs": ["echo"],
+    "pure_functions/gte.rs": ["gte"], "pure_functions/lte.rs": ["lte"], "pure_functions/tanh.rs": ["tanh"],
+    "rolling/drawdown.rs": ["drawdown", "drawdown_d"], "rolling/ln_return.rs": ["lnret", "lnret_d"],
+    "rolling/welford_rolling.rs": ["wroll", "wroll_d"],
+    "sliding_windows/alma.rs": ["alma", "almac"], "sliding_windows/binary_entropy.rs": ["bent"],
+    "sliding_windows/center_of_gravity.rs": ["cog"], "sliding_windows/correlation_trend_indicator.rs": ["cti"],
+    "sliding_windows/cumulative.rs": ["cum"], "sliding_windows/cyber_cycle.rs": ["cc"],
+    "sliding_windows/ehlers_fisher_transform.rs": ["eft"], "sliding_windows/ema.rs": ["ema", "emaa"],
+    "sliding_windows/hl_normalizer.rs": ["hln"], "sliding_windows/laguerre_filter.rs": ["lagf"],
+    "sliding_windows/laguerre_rsi.rs": ["lagrsi"], "sliding_windows/max.rs": ["max"], "sliding_windows/min.rs": ["min"],
+    "sliding_windows/my_rsi.rs": ["myrsi"], "sliding_windows/noise_elimination_technology.rs": ["net"],
+    "sliding_windows/polarized_fractal_efficiency.rs": ["pfe"], "sliding_windows/re_flex.rs": ["rflex"],
+    "sliding_windows/roc.rs": ["roc"], "sliding_windows/roofing_filter.rs": ["roof"], "sliding_windows/rsi.rs": ["rsi"],
+    "sliding_windows/sma.rs": ["sma"], "sliding_windows/super_smoother.rs": ["ss"], "sliding_windows/trend_flex.rs": ["tflex"],
+    "sliding_windows/variance_stabilizing_transformation.rs": ["vst"], "sliding_windows/vsct.rs": ["vsct"],
+    "sliding_windows/welford_online.rs": ["wo", "vst", "vsct"],
+}
+# files that no view's behaviour depends on (plotting helpers, test data): a change there is not a reason to search
+SRC_IGNORED = {"plot.rs", "test_data.rs"}
+
+
+def source_hashes(root="/repo/src"):
+    out = {}
+    for d, _, files in os.walk(root):
+        for f in files:
+            if f.endswith(".rs"):
+                p = os.path.join(d, f)
+                out[os.path.relpath(p, root)] = hashlib.sha256(open(p, "rb").read()).hexdigest()
+    return out
+
+
+def source_focus():
+    """(views, everything, changed_files): the views whose source file differs from the one recorded in source_hashes.json
+    (the state the model was last validated against); `everything` when a shared file (lib.rs, a mod.rs, a new file)
+    differs.  On the unchanged tree: (set(), False, [])."""
+    try:
+        rec = json.load(open(os.path.join(VERIF, "source_hashes.json")))["files"]
+    except Exception:
+        return set(), False, []
+    cur = source_hashes()
+    changed = sorted(f for f in set(rec) | set(cur) if rec.get(f) != cur.get(f) and f not in SRC_IGNORED)
+    views, everything = set(), False
+    for f in changed:
+        if f in SRC_VIEWS:
+            views.update(SRC_VIEWS[f])
+        else:
+            everything = True
+    return views, everything, changed
+
+
 FORBIDDEN = re.compile(r"\bsorry\b|\badmit\b|^\s*axiom\s|native_decide|bv_decide|implemented_by|\bunsafe\s|maxHeartbeats\s+0", re.M)
 
 
